@@ -55,11 +55,37 @@ class Acc:
             if len(self.samples) < 6:
                 self.samples.append(list(r.as_tuple()))
 
+    def begin(self, prover, path):
+        """called once per explored path"""
+        self.paths += 1
+        self._prover, self._path, self._feas = prover, path, None
+
+    def _path_feasible(self):
+        """feasibility of the current path: the explored path set over-approximates (an `unknown` branch check counts as
+        feasible), so a solver-free (structural) failure is only a violation if the path is confirmed satisfiable"""
+        if getattr(self, "_path", None) is None:
+            return "sat"
+        if self._feas is None:
+            self._feas = self._prover.satisfiable(self._path.premises, timeout_ms=20000)
+        return self._feas
+
+    def reach(self, verdict):
+        """vacuity twin bookkeeping: True once some path's premises are satisfiable; False only if every checked path is unsat"""
+        if verdict == "sat":
+            self.reachable = True
+        elif verdict == "unsat" and self.reachable is None:
+            self.reachable = False
+
     def structural(self, name, ok, detail=None, cex=None):
         """an obligation decided without the solver on this path (shape of the result, exception type, index list)"""
         self.obligations += 1
         if ok:
             self.proved += 1
+        elif self._path_feasible() == "unsat":
+            self.obligations -= 1
+            self.extra["spurious_paths_dropped"] = self.extra.get("spurious_paths_dropped", 0) + 1
+        elif self._path_feasible() != "sat":
+            self.inconclusive.append({"obligation": name, "solver": "feasibility", "note": "structural failure on a path whose feasibility is unknown"})
         else:
             c = {"obligation": name, "kind": "structural", "detail": detail}
             if cex:
